@@ -44,8 +44,41 @@ def run(out, info, tier, seed):
                                ncases=(220, 2000), nontrivial=nontrivial, features=features,
                                extra_obligations=[('Sched.Inv (invariant preserved by every event)', 'Sched/Inv'),
                                                   ('Sched.Main (lifting to runs from the initial state)', 'Sched/Main')])
+    out.coverage['realtime_configs'] = realtime_causal(out)
     out.coverage['nontrivial_rule'] = 'at some quiescent point at least two simulators were in flight (a consumer could have been stepped too early)'
 
 
+def realtime_causal(out):
+    """the guard also holds in real-time mode: a producer whose step is really in flight when the wall clock passes into the
+    next tick(s) - late, tolerated with rt_strict off - still holds its consumer back, also while other simulators finish
+    steps in the meantime.  Run on the virtual clock of the C17 harness: A -> B (plain), an unconnected bystander D."""
+    from . import c17
+    n = 0
+    for rt in (0.5, 1.0):
+        for late_step, dur in ((1, 1.5), (2, 1.25), (1, 2.5), (0, 1.5)):
+            for conn in ([(0, 1)], [(0, 1), (1, 2)]):
+                cfg = dict(rt=rt, res=1.0, until=5, strict=False, sims=[{'durations': {str(late_step): rt * dur}}, {}, {}], connect=conn)
+                r = c17.trial(cfg); n += 1
+                ended = set(); bad = []
+                for l in r['log']:
+                    if l[0] == 'END': ended.add((l[1], l[2]))
+                    if l[0] == 'BEGIN' and l[1] == 'S1' and ('S0', l[2]) not in ended:
+                        bad.append(f'S1 began its step at {l[2]} (wall {l[3]}) before its provider S0 had finished its step at {l[2]}')
+                    if l[0] == 'BEGIN' and l[1] == 'S2' and len(conn) == 2 and ('S1', l[2]) not in ended:
+                        bad.append(f'S2 began its step at {l[2]} (wall {l[3]}) before its provider S1 had finished its step at {l[2]}')
+                if r['outcome'] != 'returned': bad.append(f"run failed: {r['outcome']}")
+                if bad:
+                    out.violations.append(dict(kind='realtime_causal', config=cfg, observed=bad[:3]))
+                    return n
+    return n
+
+
 def replay(path, out):
+    import json
+    r = json.load(open(path))
+    if r.get('kind') == 'realtime_causal':
+        o = common.Outcome('C01', 'quick', 0); realtime_causal(o)
+        for v in o.violations: print(v['observed'])
+        if o.violations: print(f'VIOLATION property=C01 replay={path}')
+        return 1 if o.violations else 0
     return sched_check.replay_trace(path, 'C01', monitors.P_C01, KINDS)
